@@ -102,6 +102,7 @@ structure World where
   byInsertOrder : List Key := []
   archs : Slab Arch := { entries := [.occ { index := 0, comps := [], cols := [], ids := [] }], next := 1 }
   queue : List QItem := []
+  inflightOwned : Bool := false          -- `EventDropper.ownership_flag` of the event being delivered
   arenaEpoch : Nat := 0
   arenaCount : Nat := 0
   epochCtr : Nat := 1
@@ -573,9 +574,10 @@ def runAct (hk : Key) (it : QItem) (loc : Loc) (act : Act) : M Bool := do
     if ← takeBudget then senderPush h { ty := .rem k, idx := 0, target := tgtOf tg }
     pure false
   | .take =>
-    if h.recvMut then
+    if h.recvMut && !w.inflightOwned then
       logT " took"
       dropEvent it      -- the handler owns the value now and lets it go at once
+      modify fun w => { w with inflightOwned := true }
       pure true
     else pure false
   | .panic => throw (.panic "user")
@@ -692,23 +694,27 @@ def runHandler (hk : Key) (it : QItem) (loc : Loc) : M Bool := do
   let mut owned := false
   let mut recvDone := false
   let mut singleDone : List Nat := []
+  -- the body keeps running after `take` (the handler owns the event; it may still send, iterate or panic)
   for act in h.body do
-    if !owned then
-      match act with
-      | .recv =>
-        -- the receiver's query item is moved out when it is first rendered
-        if !recvDone then
-          recvDone := true
-          owned ← runAct hk it loc act
-      | .single p =>
-        if singleDone.contains p then
-          match h.params[p]? with
-          | some pm => if pm.kind == .single || pm.kind == .trySingle then logT s!" single{p} gone"
-          | none => throw (.panic "script:bad-param")
-        else
-          singleDone := p :: singleDone
-          owned ← runAct hk it loc act
-      | _ => owned ← runAct hk it loc act
+    match act with
+    | .recv =>
+      -- the receiver's query item is moved out when it is first rendered
+      if !recvDone then
+        recvDone := true
+        let r ← runAct hk it loc act
+        owned := owned || r
+    | .single p =>
+      if singleDone.contains p then
+        match h.params[p]? with
+        | some pm => if pm.kind == .single || pm.kind == .trySingle then logT s!" single{p} gone"
+        | none => throw (.panic "script:bad-param")
+      else
+        singleDone := p :: singleDone
+        let r ← runAct hk it loc act
+        owned := owned || r
+    | _ =>
+      let r ← runAct hk it loc act
+      owned := owned || r
   pure owned
 
 /-- the unwinding path, second half of `EventDropper::drop`: every queued event is dropped through the drop
@@ -749,13 +755,14 @@ def deliverOne (it : QItem) : M Unit := do
     if info.needsDrop then dropEvent it
   | some hs =>
     let mut owned := false
+    modify fun w => { w with inflightOwned := false }
     for hk in hs do
       if !owned then
         let r ← tryCatch (runHandler hk it loc) fun e => do
-          -- `EventDropper::drop`, first half: the in-flight event is dropped unless a handler owns it. A handler
-          -- stops at `take`, so an unwinding handler never owns the event.
+          -- `EventDropper::drop`, first half: the in-flight event is dropped unless a handler owns it
+          -- (`ownership_flag`; a handler may `take` the event and panic afterwards)
           match e with
-          | .panic _ => if info.needsDrop then dropEvent it
+          | .panic _ => if !(← get).inflightOwned && info.needsDrop then dropEvent it
           | _ => pure ()
           throw e
         owned := r
